@@ -100,10 +100,17 @@ def _check_init(rep, prog, rid):
         st = {p: v for p, v, l, _ in s.stores}
         fl = st.get('%s.flags' % me, '').replace(' ', '')
         co = st.get('%s.conditions' % me, '').replace(' ', '')
-        rep.check(fl in ('set(*%s)' % va.arg, 'frozenset(*%s)' % va.arg, '{**%s}' % va.arg), rid, 'KeyAction.__init__', 'flags = %s' % fl,
-                  'every capability named in the decorator is a required flag', where=init.where, expected='set(<all positional arguments>)', found=fl)
-        rep.check(co in (kw.arg, 'dict(%s)' % kw.arg, 'dict(**=%s)' % kw.arg, '{**:%s}' % kw.arg), rid, 'KeyAction.__init__', 'conditions = %s' % co,
-                  'every condition named in the decorator is kept', where=init.where, expected='<all keyword arguments>', found=co)
+        ok_f = fl in ('set(*%s)' % va.arg, 'frozenset(*%s)' % va.arg, '{**%s}' % va.arg)
+        ok_c = co in (kw.arg, 'dict(%s)' % kw.arg, 'dict(**=%s)' % kw.arg, '{**:%s}' % kw.arg, '%s.copy()' % kw.arg)
+        # a shape that is neither the known-complete one nor recognisably partial (subscript / other source) is not judged
+        if not ok_f and ('*' + va.arg) in fl and '[' not in fl and 'SLICE(' not in fl:
+            raise AnalysisError('KeyAction.__init__: required flags built as %s' % fl)
+        if not ok_c and kw.arg in co and '[' not in co and 'for' not in co:
+            raise AnalysisError('KeyAction.__init__: conditions built as %s' % co)
+        rep.check(ok_f, rid, 'KeyAction.__init__', 'flags = %s' % fl, 'every capability named in the decorator is a required flag', where=init.where,
+                  expected='set(<all positional arguments>)', found=fl)
+        rep.check(ok_c, rid, 'KeyAction.__init__', 'conditions = %s' % co, 'every condition named in the decorator is kept', where=init.where,
+                  expected='<all keyword arguments>', found=co)
 
 
 def check_private_ops(rep, prog, rid):
